@@ -28,6 +28,7 @@ CHUNK = 720
 GROUP = 12
 DETERMINISM = {"quick": 24, "thorough": 120}
 RULE = (
+    'Groups with number%10==6 (4 members): one EnsembleOptimizer object with an external/scripted back-end started three times, one evaluation failing for every realization, compared with the in-process twin. '
     "groups of 12 runs share a scenario (back-end in the child: scripted 55%, real slsqp / l-bfgs-b / cobyla / nelder-mead / "
     "differential_evolution 45%; constraints, masks, NaN failures; per-run seeded scheduler, syscall cost per process 2-50 ms, "
     "evaluation time 0-2 s). Member 0: fault-free external run vs in-process run. Members 1-4: child killed at system call "
